@@ -21,7 +21,7 @@ RULE = (
     "can_handle, remove-on-handle flags; 0..14 datagrams (known, unknown verbs, duplicates) at generated virtual times and floods of 5..40 "
     "datagrams 1..21 ms apart (engine iterations faster than the send throttle); bursts of "
     "1..5 queued sends (one of them possibly untransmittable: no send_bytes / no destination); 0..3 requests with timeout T in {1,2.5,4} s and N in 0..6 retries, answered at a generated time / never "
-    "/ reply claimed by an earlier handler; (handshake) per step (version, channel, config file, status block) 0..10 destroyed "
+    "/ reply claimed by an earlier handler / first transmission refused by the OS (sendto raises); (handshake) per step (version, channel, config file, status block) 0..10 destroyed "
     "attempts of kinds {request lost, reply lost, middle segments lost, final segment lost, all segments lost} followed by a clean "
     "attempt, on a shipped snapshot. Non-trivial = >=2 handlers accepting one datagram, or a request that is retried, or losses in "
     ">=2 handshake steps; distinct by canonical case."
@@ -51,9 +51,10 @@ def strategy(tier):
     dgram = st.tuples(tm, st.integers(0, 6)).map(list)  # verb 5 = unknown, 6 = request reply verb family
     # third element: which send of the burst cannot be transmitted (0 = none, k = the k-th has no send_bytes, -k = the k-th has no destination)
     burst = st.tuples(tm, st.integers(1, 5), st.sampled_from([0, 0, 1, 2, -1, -3])).map(list)
-    req = st.builds(lambda t, T, N, a, steal: {"t": t, "T": T, "N": N, "answer": a, "shadow": steal},
+    req = st.builds(lambda t, T, N, a, steal, refuse: dict({"t": t, "T": T, "N": N, "answer": a, "shadow": steal}, **({"refused": True} if refuse else {})),
                     tm, st.sampled_from([1.0, 1.0, 2.5, 4.0]), st.integers(0, 6),
-                    st.one_of(st.none(), st.integers(0, 400).map(lambda x: x / 20.0)), st.sampled_from([False, False, False, True]))
+                    st.one_of(st.none(), st.integers(0, 400).map(lambda x: x / 20.0)), st.sampled_from([False, False, False, True]),
+                    st.sampled_from([False, False, False, True]))
     flood = st.tuples(tm, st.integers(5, 40), st.sampled_from([1, 2, 5, 10, 19, 21])).map(list)   # k datagrams gap ms apart: fast engine iterations
     engine = st.builds(lambda h, d, b, r, f: {"part": "engine", "handlers": h, "datagrams": sorted(d), "bursts": sorted(b)[:2], "requests": r, "floods": f},
                        st.lists(handler, min_size=1, max_size=6), st.lists(dgram, max_size=14), st.lists(burst, max_size=2), st.lists(req, max_size=3),
@@ -75,6 +76,15 @@ class _Eng(stepped.Engine):
     def __init__(self, ev):
         super().__init__()
         self.ev = ev
+        self.fail_once = set()   # payloads whose next transmission the OS refuses (sendto raises OSError)
+        self.refused = []
+
+    def on_send(self, data, addr):
+        if data in self.fail_once:
+            self.fail_once.discard(data)
+            self.refused.append((self.vt.t, data))
+            raise OSError(101, "Network is unreachable")
+        return super().on_send(data, addr)
 
     def on_recv(self):
         data, addr = super().on_recv()   # raises socket.timeout when nothing arrives
@@ -91,7 +101,7 @@ def _part_engine(res, case):
     ev = []          # unified event log
     qlog = []        # (time, hid) in queue_send order
     eng = _Eng(ev)
-    info = {"multi": False, "retried": False, "bad_send": False}
+    info = {"multi": False, "retried": False, "bad_send": False, "refused": False}
 
     with eng.patched():
         sock = eng.attach(GeckoUdpSocket())
@@ -148,7 +158,7 @@ def _part_engine(res, case):
             T, N = float(r["T"]), int(r["N"])
             if T < 1.0 or not (0 <= N <= 10):
                 raise InvalidCase(case)
-            reqs.append({"id": f"r{j}", "t": float(r["t"]), "T": T, "N": N, "answer": r.get("answer"), "shadow": bool(r.get("shadow")),
+            reqs.append({"id": f"r{j}", "t": float(r["t"]), "T": T, "N": N, "answer": r.get("answer"), "shadow": bool(r.get("shadow")), "refused": bool(r.get("refused")),
                          "verb": b"RPLY%d" % j, "h": None, "created": None, "failed": [], "gone_at": None})
         # datagram script
         n = 0
@@ -214,6 +224,8 @@ def _part_engine(res, case):
 
                     h = H(r["id"], [r["verb"]], "ok", True, send_bytes=b"REQ" + r["id"].encode(), timeout=r["T"], retry_count=r["N"], on_retry_failed=failed)
                     r["h"], r["created"] = h, vt.t
+                    if r["refused"]:
+                        eng.fail_once.add(h._send_bytes)   # the OS refuses its first transmission (interface still down)
                     hs[h.hid] = h
                     sock.add_receive_handler(h)
                     ev.append(("reg", h.hid, vt.t))
@@ -239,10 +251,15 @@ def _part_engine(res, case):
     # ---- O1: FIFO, paced
     sent = [(t, d) for t, d, _ in eng.sent]
     exp_order = []
+    refused_left = {d for _, d in eng.refused}
     for t, hid, dest in qlog:
         if hid is None or hid.startswith("x"):
             continue   # x..: a send that cannot be transmitted; it must be dropped without holding up the queue
-        exp_order.append(hs[hid]._send_bytes if hid in hs else b"SEND%03d" % int(hid[1:]))
+        payload = hs[hid]._send_bytes if hid in hs else b"SEND%03d" % int(hid[1:])
+        if payload in refused_left:
+            refused_left.discard(payload)
+            continue   # the transmission the OS refused never reached the wire; the later ones must
+        exp_order.append(payload)
     got_order = [d for _, d in sent]
     if got_order != exp_order:
         k = next((i for i, (a, b) in enumerate(zip(got_order, exp_order)) if a != b), min(len(got_order), len(exp_order)))
@@ -321,7 +338,10 @@ def _part_engine(res, case):
         if retries:
             info["retried"] = True
         sends = [t for t, d in sent if d == b"REQ" + hid.encode()]
-        if len(sends) != len(queues):
+        n_refused = sum(1 for _, d in eng.refused if d == b"REQ" + hid.encode())
+        if n_refused:
+            info["refused"] = True
+        if len(sends) + n_refused != len(queues):
             res.fail("C20|request|transmissions", f"{hid}: queued {len(queues)} times, transmitted {len(sends)} times")
         resets = sorted([r["created"]] + handled + retries)
         for tr in retries + r["failed"]:
@@ -463,6 +483,8 @@ def run_case(case) -> Result:
             res.label("engine-raising-handler")
         if info["bad_send"]:
             res.label("engine-untransmittable-send")
+        if info.get("refused"):
+            res.label("engine-first-transmission-refused")
     elif part == "handshake":
         plan = _part_handshake(res, case)
         lossy = sum(1 for v in plan.values() if v)
